@@ -493,6 +493,13 @@ func init() {
 			in.path.outs = append(in.path.outs, fmt.Sprintf("%s=%s", asString(in, a[0]), sb.String()))
 			return nil
 		},
+		"verifParam": func(in *Interp, fr *frame, fn *ssa.Function, a []Value) Value {
+			name := asString(in, a[0])
+			if v, ok := in.cfg.Params[name]; ok {
+				return in.tt.BVI(v, 64)
+			}
+			return a[1]
+		},
 		"verifBigEq": func(in *Interp, fr *frame, fn *ssa.Function, a []Value) Value {
 			return in.tt.Eq(in.bigOf(a[0]), in.bigOf(a[1]))
 		},
@@ -835,8 +842,18 @@ func init() {
 			if d.IsConst() {
 				return Float{float64(toSigned(d.val, 64).Int64()) / 1e9, 64}
 			}
-			in.unsupported("Duration.Seconds on symbolic duration")
-			return nil
+			tt := in.tt
+			e9 := tt.BVI(1000000000, 64)
+			whole := tt.Eq(tt.BvSrem(d, e9), tt.BVI(0, 64))
+			if !in.truth(whole) {
+				in.unsupported("Duration.Seconds on a symbolic sub-second duration (floating point is not encoded)")
+			}
+			sec := tt.BvSdiv(d, e9)
+			small := tt.And(tt.BvSlt(tt.BVI(-(1<<53), 64), sec), tt.BvSlt(sec, tt.BVI(1<<53, 64)))
+			if !in.truth(small) {
+				in.unsupported("Duration.Seconds beyond 2^53 seconds")
+			}
+			return SymFloat{sec}
 		},
 
 		// ---- sort.Slice needs reflectlite.Swapper
